@@ -164,7 +164,10 @@ def _ensure_numeric_strict(a: Any, b: Any) -> tuple[float, float]:
         # bool is subclass of int; exclude explicitly for policy semantics
         raise ConditionTypeError("condition_type_mismatch")
     if isinstance(a, (int, float)) and isinstance(b, (int, float)):
-        return float(a), float(b)
+        try:
+            return float(a), float(b)
+        except OverflowError as e:  # int too large for a float
+            raise ConditionTypeError("condition_type_mismatch") from e
     raise ConditionTypeError("condition_type_mismatch")
 
 
